@@ -34,6 +34,7 @@ func (x *Exec) addArgValues(q *Query, c *Contract, args []Value, pre Heap) {
 			}
 		case *SliceV:
 			q.Values = append(q.Values, NamedTerm{"arg:" + name + "#len", u.Len})
+			q.Prefer = append(q.Prefer, b.Not(b.Cmp("bvult", b.Const(64, 0x11000), u.Len)))
 			if u.Obj != nil {
 				if arr, ok := x.getPath(pre[u.Obj], u.Path).(*Term); ok {
 					for k := 0; k < 16; k++ {
